@@ -128,6 +128,13 @@ func (e *Enc) typeAssert(f *frame, st *State, in *ssa.TypeAssert) Val {
 		res = e.unbox(x, in.AssertedType)
 	}
 	if res.Sh.K == KInt {
+		if _, isBasic := in.AssertedType.Underlying().(*types.Basic); isBasic {
+			// a boxed integer was in the range of its type when it was put into the interface
+			saveR := e.curReach
+			e.curReach = and(saveR, ok)
+			e.assumeRange(st, res)
+			e.curReach = saveR
+		}
 		if pt, isPtr := in.AssertedType.Underlying().(*types.Pointer); isPtr {
 			saveR := e.curReach
 			e.curReach = and(saveR, ok)
